@@ -563,11 +563,16 @@ package kapacitor
 // buffered is lost, duplicated or reordered.
 //@ func (*windowTimeBuffer).insert
 //@   props C03
-//@   requires wtOK(b) && p != nil
+//@   requires wtOK(b) && wtDead(b) && wtSorted(b) && p != nil
+//@   requires forall i int :: 0 <= i && i < b.size ==> wtView(b, i).Time() <= p.Time()
 //@   modifies b.window, b.start, b.stop, b.size, elems(b.window)
+//@   opt split=3
 //@   ensures wtOK(b) && b.size == old(b.size) + 1
 //@   ensures wtView(b, old(b.size)) == p
 //@   ensures forall i int :: 0 <= i && i < old(b.size) ==> wtView(b, i) == old(wtView(b, i))
+//@   ensures wtSorted(b)
+//@   ensures wtDead(b)
+
 // Dead slots (inside the slice, outside the live region) only hold points that every later purge
 // would drop anyway: their time is below (inclusive mode) or at most (exclusive mode) the low-water
 // mark of the last purge -- the fact purge silently relies on when it peeks at window[len-1] and
@@ -627,8 +632,14 @@ package kapacitor
 // when and with which bounds the buffer is purged and the batch cut.
 //@ func (*windowByTime).Point
 //@   props C03
-//@   requires w != nil && wtOK(w.buf) && p != nil && w.every >= 0
-//@   ensures err == nil && called(insert) && wtOK(w.buf)
+//@   requires w != nil && wtOK(w.buf) && wtDead(w.buf) && wtSorted(w.buf) && p != nil && w.every >= 0
+//@   requires gf(w.buf, incl, bool) == (w.every != 0)
+//@   requires forall i int :: 0 <= i && i < w.buf.size ==> wtView(w.buf, i).Time() <= p.Time()
+//@   requires w.every != 0 ==> w.nextEmit - time.Time(w.period) >= gf(w.buf, lowWater, time.Time)
+//@   requires w.every == 0 ==> p.Time() - time.Time(w.period) >= gf(w.buf, lowWater, time.Time)
+//@   ensures err == nil && called(insert) && wtOK(w.buf) && wtDead(w.buf) && wtSorted(w.buf)
+//@   ensures w.every != 0 ==> w.nextEmit - time.Time(w.period) >= gf(w.buf, lowWater, time.Time)
+//@   ensures w.period > 0 || w.every != 0 ==> w.buf.size >= 1 && wtView(w.buf, w.buf.size - 1) == p
 //@   ensures (msg != nil) <==> (p.Time() >= old(w.nextEmit))
 //@   ensures called(purge) <==> (p.Time() >= old(w.nextEmit))
 //@   ensures called(batch) <==> (p.Time() >= old(w.nextEmit))
